@@ -191,6 +191,7 @@ class Index:
         self.counting_loops = canon.desugar_counting_loops(self)
         self.setdefault_guards = canon.desugar_setdefault_identity(self)
         self.fused = canon.fuse_record_lists(self)
+        self.unzipped = canon.unzip_mapped_lists(self)
         self.equality_loops = canon.switch_for_equality_loops(self)
         self.temporaries = canon.inline_single_use_temporaries(self)
         self.positional = canon.positional_calls(self)
